@@ -285,9 +285,9 @@ func runC15Nodes(c *Ctx) {
 	runC15LiveJoin(c, reg)
 }
 
-// runC15AcceptorSet: the acceptor's cookie changed at run time through gen.Acceptor.SetCookie. The model
-// (CookieSel.startAcc/setCookie/handshakeCookie) says the running accept loop keeps the cookie it was started with;
-// the property wants the cookie set last. Listed finding D10b: the witness is replayed on every run.
+// runC15AcceptorSet: the acceptor's cookie changed at run time through gen.Acceptor.SetCookie. The property wants the
+// cookie set last; the model (CookieSel.startAcc/setCookie/handshakeCookie) follows the regenerated shape of the accept
+// loop (options read per connection, or — before the repair of D10b — once before the loop). Replayed on every run.
 func runC15AcceptorSet(c *Ctx, reg *memReg) {
 	r := c.R
 	y, port, err := startNetNode(reg, nodeSpec{cookie: "n1"})
@@ -330,12 +330,18 @@ func runC15AcceptorSet(c *Ctx, reg *memReg) {
 	withNew, withOld := try("a1"), try("n1")
 	r.Case("nodes-acceptor-setcookie", true)
 	r.Count(fmt.Sprintf("nodes.setcookie.reported-%s.new-%v.old-%v", reported, withNew, withOld))
-	// model: started with (node 1, option 0), SetCookie 3: handshake cookie stays 1, Cookie() reports 3
-	if reported != "a1" || withNew != false || withOld != true {
-		if withNew && !withOld {
-			r.Note("Acceptor.SetCookie is effective on this tree: the model (accept loop snapshot) and finding D10b are out of date")
-		}
-		r.Disagree("c15-nodes-setcookie", fmt.Sprintf("model (CookieSel.handshakeCookie): SetCookie does not reach the accept loop; implementation: Cookie()=%q, connect with new cookie=%v, with old cookie=%v", reported, withNew, withOld), nil)
+	// model: started with (node cookie 1, no acceptor option), SetCookie 3: which cookie is the next handshake checked
+	// against, what does Cookie() report (CookieSel.handshakeCookie over the regenerated accept-loop shape)
+	mo, merr := Model("handshake", []string{"accset 1 0 3"})
+	if merr != nil || len(mo) != 1 {
+		r.Disagree("c15-nodes-setcookie", fmt.Sprintf("model driver: %v", merr), nil)
+		return
+	}
+	var mHs, mField int
+	fmt.Sscanf(mo[0], "%d %d", &mHs, &mField)
+	wantNew, wantOld := mHs == 3, mHs == 1
+	if (reported == "a1") != (mField == 3) || withNew != wantNew || withOld != wantOld {
+		r.Disagree("c15-nodes-setcookie", fmt.Sprintf("model (CookieSel.handshakeCookie): handshake cookie %d, Cookie() %d (1 = node cookie, 3 = the cookie set); implementation: Cookie()=%q, connect with the cookie set=%v, with the node cookie=%v", mHs, mField, reported, withNew, withOld), nil)
 	}
 	if !withNew || withOld {
 		r.Violation("C15/acceptor-setcookie-ignored", fmt.Sprintf("after Acceptor.SetCookie(\"a1\") on an acceptor started with the node cookie \"n1\": Cookie() reports %q, a peer presenting \"a1\" connected=%v, a peer presenting \"n1\" connected=%v", reported, withNew, withOld), nil)
